@@ -50,6 +50,9 @@ static void hkdf_stream(const args_t *a, long idx)
     key = gb_place(&gKEY, kl, (int)(idx % 3), (unsigned)(idx & 7), nullmode, 0);   if (kl) fill_class(&r, key, kl, bc);
     salt = gb_place(&gSALT, sl, (int)((idx + 1) % 3), (unsigned)((idx >> 2) & 7), nullmode, 0); if (sl) fill_class(&r, salt, sl, bc == BC_ZERO ? BC_RANDOM : bc);
     info = gb_place(&gINFO, il, (int)((idx + 2) % 3), (unsigned)((idx >> 4) & 7), nullmode, 0); if (il) fill_class(&r, info, il, bc);
+    /* inputs may legally share memory: the salt and/or the info string inside the key buffer */
+    if (sl && sl <= kl && idx % 5 == 1) salt = key + (kl - sl);
+    if (il && il <= kl && idx % 5 == 3) info = key;
     gb_readonly(&gKEY); gb_readonly(&gSALT); gb_readonly(&gINFO);
     m_hkdf(model, full ? CAP : 700, key, kl, salt, sl, info, il);
 
@@ -164,6 +167,7 @@ static void pbkdf2_case(const args_t *a, long idx, size_t outlen, size_t pl, siz
     pw = gb_place(&gKEY, pl, (int)(idx % 3), (unsigned)(idx & 7), nullmode, 0);     if (pl) fill_class(&r, pw, pl, bc);
     salt = gb_place(&gSALT, sl, (int)((idx + 1) % 3), (unsigned)((idx >> 3) & 7), nullmode, 0); if (sl) fill_class(&r, salt, sl, bc);
     if (OV_PW) { if (pl) memcpy(pw, OV_PW, pl); if (sl) memcpy(salt, OV_SALT, sl); }      /* corpus entry: exactly these bytes */
+    else if (sl && sl <= pl && idx % 5 == 2) salt = pw + (pl - sl);                          /* the salt may legally lie inside the password buffer */
     gb_readonly(&gKEY); gb_readonly(&gSALT);
     out = gb_place(&gOUT, outlen, (idx % 4 == 3) ? PL_MID : PL_END, (unsigned)((idx >> 1) & 7), nullmode, 0x3D);
     MSAN_POISON(out, outlen);
